@@ -154,6 +154,14 @@ def build_inputs(ctx, cases):
         ec = 1 + k % 4
         for mir in (0, 1):
             ins.append(dict(op="qrmat", sym="QR", c=list(c), ec=ec, rd="own", th=0, h=0, mg=-1, pad=0, scale=1, rot=0, mir=mir, b=[], bw=0, bh=0))
+    # every (level, mask) pair on a version >= 7 symbol (version information present), plain and mirrored: the format word of a transposed
+    # symbol reads back as another word - or as itself - depending on level and mask
+    long_text = list(("The quick brown fox jumps over the lazy dog 0123456789 " * 4).encode())[:170]
+    for ec in range(1, 5):
+        for mask in range(8):
+            for mir in (0, 1):
+                ins.append(dict(op="qrmat", sym="QR", c=long_text[:{1: 150, 2: 120, 3: 85, 4: 62}[ec]], ec=ec, mh=mask + 1, rd="own", th=0, h=0, mg=-1, pad=0, scale=1, rot=0, mir=mir,
+                                b=[], bw=0, bh=0))
     # known finding C09-mirrored-1L-first-reading-accepted: the two inputs found so far (always replayed)
     for text in ("EV9", "P1*L%TUQ+KZO9O"):
         ins.append(dict(op="qrmat", sym="QR", c=list(text.encode()), ec=1, rd="own", th=0, h=0, mg=-1, pad=0, scale=1, rot=0, mir=1, b=[], bw=0, bh=0))
